@@ -372,6 +372,63 @@ def source_table_obligation(ctx, audit):
     return ok
 
 
+def batched_parameter_independence(G, ctx, n_keys):
+    """A distribution called with ONE parameter batched (an array of equal values, the others scalar) - directly and with only that
+    parameter mapped by modular_vmap - returns one INDEPENDENT draw per component: the components are never equal (continuous
+    families) and uncorrelated over keys.  A sampler that sizes its noise by one parameter only passes every per-component test
+    (marginals, shapes, dtypes) and fails this joint one."""
+    import jax
+    import jax.numpy as jnp
+    import jax.random as jr
+    import genjax.distributions as D
+    seen = set()
+    for spec in table():
+        if spec["kind"] == "vec" or spec["name"] == "categorical" or spec.get("edge") or spec["name"] in seen:
+            continue
+        seen.add(spec["name"])
+        dist = getattr(D, spec["name"])
+        slots = [("pos", j) for j in range(len(spec["params"]))] + [("kw", k) for k in spec["kw"]]
+        for kind, j in slots:
+            for mode in ("direct", "mapped"):
+                case = {"kind": "batched-parameter", "dist": spec["name"], "slot": [kind, j], "mode": mode}
+
+                def draw(key, kind=kind, j=j, mode=mode):
+                    def call(v):
+                        args = list(spec["params"])
+                        kw = dict(spec["kw"])
+                        if kind == "pos":
+                            args[j] = v
+                        else:
+                            kw[j] = v
+                        return dist.sample(*args, **kw)
+                    base = spec["params"][j] if kind == "pos" else spec["kw"][j]
+                    vec = jnp.full((3,), base, dtype=jnp.float32)
+                    if mode == "direct":
+                        return G.seed(lambda: call(vec))(key)
+                    return G.seed(G.modular_vmap(call, in_axes=(0,)))(key, vec)
+                try:
+                    xs = np.asarray(jax.vmap(draw)(jr.split(jr.key(ctx.seed + 77), n_keys)), dtype=np.float64)
+                except Exception as ex:
+                    impl.reset_handlers()
+                    ctx.property_failure(None, f"{spec['name']}: sampling with parameter {j} batched ({mode}) raised {type(ex).__name__}: {str(ex)[:140]}", case)
+                    continue
+                if xs.shape != (n_keys, 3):
+                    ctx.property_failure(None, f"{spec['name']}: parameter {j} batched over 3 components ({mode}) gives draws of shape {xs.shape[1:]}", case)
+                    continue
+                if spec["kind"] == "cont":
+                    eq = float(np.mean((xs[:, 0] == xs[:, 1]) | (xs[:, 1] == xs[:, 2])))
+                    if eq > 0.01:
+                        ctx.property_failure(None, f"{spec['name']}: with parameter {j} batched ({mode}) the components of one draw are EQUAL in {eq:.0%} of the runs - one noise draw is shared", {**case, "equal_fraction": eq})
+                        continue
+                rk = np.argsort(np.argsort(xs + 1e-9 * np.random.default_rng(0).standard_normal(xs.shape), axis=0), axis=0).astype(np.float64)
+                c = np.corrcoef(rk.T)
+                worst = max(abs(c[0, 1]), abs(c[0, 2]), abs(c[1, 2]))
+                if np.isfinite(worst) and worst > 5.5 / np.sqrt(n_keys):
+                    ctx.property_failure(None, f"{spec['name']}: with parameter {j} batched ({mode}) the components are rank-correlated ({worst:.3f} over {n_keys} keys)", {**case, "corr": float(worst)})
+                ctx.case(sample=case if (spec["name"], mode) == ("normal", "direct") and j == 1 else None, nontrivial_key=("batched-parameter", spec["name"], str(j), mode))
+                ctx.count("batched-parameter")
+
+
 def run(ctx, audit):
     source_table_obligation(ctx, audit)
     T = table()
@@ -381,6 +438,7 @@ def run(ctx, audit):
     user_wrapped(impl.load(), ctx)
     vectorised_params(impl.load(), ctx)
     vectorised_keyword_params(impl.load(), ctx, 3000 if ctx.thorough else 1500)
+    batched_parameter_independence(impl.load(), ctx, 1500 if ctx.thorough else 500)
     return {"rule": RULE, "distributions": sorted({t["name"] for t in T})}
 
 
